@@ -38,6 +38,8 @@ pub struct ResumeLcInfo {
     pub id: LifecycleId,
     max_timestamp_us: u64,
     start_time: u64,
+    /// the resume_start_time() of the resumed lifecycle (it does not change any more once it got resumed)
+    resume_start_time: u64,
 }
 
 #[derive(Debug, Clone)]
@@ -154,9 +156,10 @@ impl Lifecycle {
     /// where resumes are e.g. detected due to a small log gap
     pub fn resume_start_time(&self) -> u64 {
         if let Some(resume_lc) = &self.resume_lc {
-            if self.start_time <= resume_lc.start_time {
+            // we compare with the resume_start_time of the resumed one (which might be a resume lifecycle as well)
+            if self.start_time <= resume_lc.resume_start_time {
                 // we enforce that the start time of a resume lifecycle is always later than from the resumed one
-                return resume_lc.start_time + 1;
+                return resume_lc.resume_start_time + 1;
             }
         }
         self.start_time
@@ -477,6 +480,7 @@ impl Lifecycle {
                     id: self.id,
                     start_time: self.start_time,
                     max_timestamp_us: self.max_timestamp_us,
+                    resume_start_time: self.resume_start_time(),
                 });
             }
             Some(lc)
